@@ -374,6 +374,12 @@ def parse_constraints(src, legal_hashes=None):
         return ["(COpaque %s)" % ustr(src)]
     stmts = ast.parse(body).body
     out = _stmts(stmts, {})
+    # the base method validates granular-marking selectors; an override that never calls it skips that
+    calls_super = any(isinstance(n, ast.Attribute) and n.attr == "_check_object_constraints"
+                      and isinstance(n.value, ast.Call) and isinstance(n.value.func, ast.Name) and n.value.func.id == "super"
+                      for n in ast.walk(ast.parse(body)))
+    if not calls_super:
+        out = ["CSkipBaseCheck"] + out
     return [("(CLegalHashes %s)" % ulist(legal_hashes or [])) if x == "LEGAL_HASHES_PLACEHOLDER" else x for x in out]
 
 
